@@ -58,6 +58,25 @@ func execWire(line string) (string, bool) {
 				case len(buf) >= 4 && uint32(n) != uint32(buf[0])|uint32(buf[1])<<8|uint32(buf[2])<<16|uint32(buf[3])<<24:
 					witnessCtx.oracleFail("C02/consumed-not-size-prefix", fmt.Sprintf("consumed %d, size prefix says otherwise", n), line)
 				}
+				if definedType {
+					// re-encoding the decoded fields with the real constructors gives a packet that decodes to the same fields
+					dotu := t[1] == "1"
+					txt := showFcall(fc)
+					witnessCtx.count("reencoded")
+					fc2 := g.NewFcall(uint32(n) + 64)
+					if err := packMsg(fc2, dotu, strings.Fields(txt)); err != nil {
+						witnessCtx.oracleFail("C02/reencode-fails", "constructor refused the decoded fields: "+err.Error(), line)
+					} else {
+						g.SetTag(fc2, fc.Tag)
+						fc3, n3, err := g.Unpack(fc2.Pkt, dotu)
+						switch {
+						case err != nil:
+							witnessCtx.oracleFail("C02/reencode-undecodable", "re-encoded packet: "+err.Error(), line)
+						case n3 != len(fc2.Pkt) || fc3.Tag != fc.Tag || showFcall(fc3) != txt:
+							witnessCtx.oracleFail("C02/reencode-differs", fmt.Sprintf("decoded %q, re-encoded and decoded %q", txt, showFcall(fc3)), line)
+						}
+					}
+				}
 			}
 			return showUnpack(fc, n, err)
 		case "unpackenc":
